@@ -357,7 +357,7 @@ fn rearm_levels() {
     gate::set_forced_levels(vec![0, 1, 0, 2, 1, 0, 3, 0, 1, 2, 0, 0, 1, 4, 0, 2], Some(0));
 }
 
-fn make_world(spec: &str) -> Option<Box<dyn World>> {
+pub fn make_world(spec: &str) -> Option<Box<dyn World>> {
     if spec != "c04-cmds" {
         return None;
     }
